@@ -164,7 +164,7 @@ var propAssumptions = map[string][]string{
 	"C07": {transportAssumption, "bounds: state after an accepted hello constructed directly (inspection armed); <=1 (2) client records with symbolic type, body <=2 bytes or boundary lengths 16384/16385/65535, cut anywhere; transport chunk size in {1,2,3,all} and caller buffer in {1,3,64} fixed per run; backend stream of <=2 records written in pieces of {1,2,5,6,all}; one-step inductive Write from any invariant-satisfying state with <=7+6 bytes; legal lengths up to 2^14+256 with zero bodies", "outside: bodies whose contents are inspected beyond byte 5 (none are); per-call varying chunk sizes"},
 	"C08": {hpkeAssumption, transportAssumption, "attacker-sealed inner plaintext (verifC08InnerRaw): raw <=42 (44) bytes or pinned fixed part with a raw inner extension block <=13 (16) bytes; deadline clause (verifC10Stall): client stalled at offsets {0,3,5,len-1} on a transport whose Write blocks, all scheduling-point interleavings", "bounds: NewConn on a raw record of <=48 (52) symbolic bytes with/without a key; pinned fixed part + raw extension block <=16 (24) bytes; structured ECH extension with raw bytes before or after; direct-state Read over <=2 (3) records and Write of <=10 (16) bytes in 3 calls", "verifC08RetryExt: hostile retried hello (raw extension block <=12 (16) bytes, or authentic seal over <=40 (42) raw plaintext bytes); verifC08ServerHello: <=10 (14) raw bytes after the ServerHello random, split writes", "outside: heap growth in bytes (slice lengths are bounded instead); the deadline clause is C10's harness"},
 	"C09": {hpkeAssumption, transportAssumption, "bounds: key lists of 1..3 (4) valid keys, symbolic one-byte ids (collisions chosen by the solver), suite subsets, target at every position or absent; other keys may reuse the target key pair under another config", "retried hello (verifC09Retry): <=2 keys, colliding key before or after the target"},
-	"C10": {transportAssumption, "concurrency layer: goroutines are coroutines; scheduling points are go/channel/select/sync/timer operations and harness yields; every choice among runnable goroutines and among ready select cases is a fork; no pre-emption between ordinary instructions", "native replay of schedule-dependent counterexamples is retried up to 48 times", "verifC10Timeout: context.WithTimeout(200 ms) over a transport that applies deadline values in virtual time", "verifC10Accepted: inspected connection (accepted ECH), cancellation after return, then change_cipher_spec / HelloRetryRequest / retried hello; verifC10CancelledAtEntry: context cancelled before NewConn with the hello buffered"},
+	"C10": {transportAssumption, "concurrency layer: goroutines are coroutines; scheduling points are go/channel/select/sync/timer operations and harness yields; every choice among runnable goroutines and among ready select cases is a fork; no pre-emption between ordinary instructions", "native replay of schedule-dependent counterexamples is retried up to 20 times", "verifC10Timeout: context.WithTimeout(200 ms) over a transport that applies deadline values in virtual time", "verifC10Accepted: inspected connection (accepted ECH), cancellation after return, then change_cipher_spec / HelloRetryRequest / retried hello; verifC10CancelledAtEntry: context cancelled before NewConn with the hello buffered"},
 	"C11": {"oracle: draft section 4 layout written out in the harness", "ecdh X25519 key generation is stubbed with fresh symbolic key bytes", "bounds: ids/KEMs/suites fully symbolic, key lengths {0,1,4,32}, <=3 suites, public names of 1,2,3,8,239,240,254,255 bytes (0 and 256 refused), lists of 0..2 (3) configs, raw parser input <=20 (26) bytes", "second oracle: crypto/tls (interpreted from its SSA; natively the real one) parses the config list as a client and accepts config+key as EncryptedClientHelloKeys as a server, for configs from ConfigSpec.Bytes and from NewConfig; only configs crypto/tls can use (KEM 0x20, 32-byte key, two-label DNS public name)", "crypto/internal/hpke.SetupSender/SetupReceipient and X25519 arithmetic are stubbed (the oracle is used as a parser)", "outside: real handshakes (C01)", "verifC11Oversized: 200/220/260 concrete configs of 302 bytes"},
 	"C12": {"bounds: whole message symbolic with <=4 (7) bytes after the header (ID/flags pinned); one question or one answer with <=10..14 symbolic bytes; one RR of each of 21 types with <=5 (8) RDATA bytes; loop unwinding limit 300 per activation (the termination assertion)", "LOC float arithmetic is opaque", "third clause (verifC12Resolve): one answer RR with symbolic class/TTL, type in {A,AAAA,CNAME,HTTPS,NS,TXT,unknown} and <=3 (5) symbolic RDATA bytes, owner = a pointer to the queried name, served through the DoH seam to Resolver.Resolve: no panic", "verifC12Params: SvcParam key 0..8/unknown, declared length exact/+1/-1, value <=9 (13) bytes (16/32 for ipv6hint), optional second parameter; SOA tail 0/19/20/21 bytes; SRV/RRSIG names <=3 bytes; LOC 15..17 bytes", "verifC12Memory: count fields in {0,1,0x1000,0xffff}, body <=4 bytes; allocation = bytes requested by make/new/append growth in interpreted code (natively runtime.MemStats.TotalAlloc), bound 16 KiB + 1 KiB per input byte", "verifC12FarPointers: pointer offsets >= 256 into a 260-byte opaque RDATA", "outside: 64 KiB inputs"},
 	"C13": {"oracle: reference RFC 1035 encoder with compression and field-wise equality in the harness", "bounds: all header bits, <=1 question, 1 (2) RRs of A/AAAA/NS/CNAME/PTR/OPT/HTTPS, names of <=1 (2) labels of 1..2 symbolic non-dot bytes, padding for every question-name length 0..130 x 4 OPT shapes, ResponseCode over all 2^8 x 2^32 values", "verifC13Exact: Message.Bytes equals a reference encoder byte for byte (names as \"\", 1..2 labels, trailing dot, 63-byte label)", "verifC13RefEncode: reference-written TXT (<=2 strings), MX, SOA, SRV, SVCB (<=2 parameters), HTTPS with keys 0/1/4/6/7 and two hints each, OPT (<=2 options); RDATA names in full or compressed; symbolic header flags", "verifC13MaxName: 255- and 254-octet names", "outside: MX/SOA/TXT/SRV/SVCB encoding (the encoder does not support them); x/net dnsmessage as second codec"},
